@@ -20,7 +20,13 @@ def _mw(id, swap):
                              'unwindset': {'ll_memmove.0': 80, 'll_memcpy.0': 80}, 'cap': 3000}}}
 
 
-HARNESSES = [_mw('c13_merge_with', 0), _mw('c13_merge_with_swapped', 1)]
+HARNESSES = [_mw('c13_merge_with', 0), _mw('c13_merge_with_swapped', 1),
+    {'id': 'c13_merge_alt_names', 'property': 'C13', 'src': 'c13_merge_with.cxx', 'entry': 'harness_c13_merge_alt_names',
+     'tus': [_DB + 'interrogateType.cxx', _DB + 'interrogateComponent.cxx'], 'tuflags': _ASSERTS, 'hflags': _ASSERTS,
+     'desc': 'merge_with: a forward declaration merged with a fully defined type that carries an alternate name',
+     'domain': 'other side fully defined, global or not, one alternate name of one symbolic character',
+     'oracle': 'the result carries the winning definition\'s alternate names',
+     'bounds': {'quick': {'unwind': 6, 'cap': 300}}}]
 
 _BSM = '_ZN19InterrogateDatabase20binary_search_moduleEiii'
 _MOD = dict(src='c13_modules.cxx', tus=[_DB + 'interrogateDatabase.cxx'], tuflags=_ASSERTS, hflags=_ASSERTS)
@@ -67,8 +73,10 @@ HARNESSES += [
 
 PROPERTY_INFO = {'C13': {'level': 'model_checking',
          'explanation': 'bounded symbolic execution (CBMC) of the real merge / module-registration code of libinterrogatedb lowered from /repo',
-         'outside': 'reading the databases from real files (C12 covers the file format; load_latest/read are not executed here); more than '
-                    '3 modules / 2 databases; order independence of merge_from over whole databases',
+         'outside': 'reading the databases from real files (C12 covers the file format; load_latest/read are not executed here); '
+                    'InterrogateDatabase::merge_from over whole databases and its order independence (copies of 400-byte records through std::map '
+                    'nodes: no verdict within 10 min / 14 GB even for 1+2 types with a concrete sharing pattern; merge_with, its kernel, is decided); '
+                    'more than NMOD modules',
          'assumptions': []}}
 
 NOT_APPLICABLE = {}
